@@ -297,10 +297,13 @@ def oracle_libtest(rec, tree):
             n_ok = sum(1 for r in results if r["event"] == "ok")
             n_ign = sum(1 for r in results if r["event"] == "ignored")
             n_failed_lines = sum(1 for r in results if r["event"] == "failed")
-            # the writer prints a retried step failure as a failed line but does not count it as failed
-            retried = sum(1 for (ev, kind, x) in exp_rest if kind == "step" and ev == "failed" and x[2]["retry_left"] > 0 and x[2]["status"] != "undefined")
+            # a failure inside an attempt that is retried afterwards (failed step other than
+            # not-found, or failed hook, with retries left) is printed as a failed line but is not
+            # final: the writer does not count it into the suite's `failed`
+            retried = sum(1 for (ev, kind, x) in exp_rest if ev == "failed" and x[2]["retry_left"] > 0
+                          and (kind == "hook" or x[2]["status"] != "undefined"))
             if s["passed"] != n_ok or s["ignored"] != n_ign or s["failed"] != n_failed_lines - retried:
-                probs.append(("libtest:totals", f"suite says passed={s['passed']} failed={s['failed']} ignored={s['ignored']}, lines give ok={n_ok} failed={n_failed_lines} (of which retried steps {retried}) ignored={n_ign}"))
+                probs.append(("libtest:totals", f"suite says passed={s['passed']} failed={s['failed']} ignored={s['ignored']}, lines give ok={n_ok} failed={n_failed_lines} (of which in retried attempts {retried}) ignored={n_ign}"))
             if (s["event"] == "failed") != (s["failed"] > 0):
                 probs.append(("libtest:verdict", f"verdict {s['event']} with failed={s['failed']}"))
     return probs
